@@ -65,8 +65,8 @@ func (c17) Exec(seed int64, i int, tier string) Record {
 	if i*stride < len(enum) && i < 12000 {
 		s, gen = enum[i*stride], "enum"
 	} else {
-		// (deep nesting is left to C02: the Lean PEG interpreter has no memo table and is exponential there)
-		switch r.Weighted([]int{22, 32, 20, 10, 0, 8, 8}) {
+		// deep nesting included: the drivers memoise rule results like the generated parser (C02_memo_transparent)
+		switch r.Weighted([]int{20, 30, 18, 10, 6, 8, 8}) {
 		case 0:
 			s, _, _ = c02GenValid(r)
 			gen = "valid"
